@@ -39,7 +39,8 @@ pub struct Body {
 }
 
 pub const WATCHDOG_CPU_NS: u64 = 10_000_000_000;
-/// prefix of the `run_one` error for a child that stalled in wall-clock time only: inconclusive, never a verdict
+/// prefix of the `run_one` errors that say nothing about the library (a child that stalled in wall-clock time only,
+/// a worker that could not be started): inconclusive, never a verdict
 pub const STALL: &str = "STALL";
 
 /// a stalled confirmation run decides nothing: stop with the inconclusive exit status
@@ -157,7 +158,13 @@ pub struct Outcome {
 }
 
 fn exe() -> std::path::PathBuf {
-    std::env::current_exe().expect("current_exe")
+    // the running image itself: stays valid when the file on disk is replaced by a rebuild during the run
+    let p = std::path::PathBuf::from("/proc/self/exe");
+    if p.exists() {
+        p
+    } else {
+        std::env::current_exe().expect("current_exe")
+    }
 }
 
 /// parent side: run cases 0..total over `workers` children
@@ -286,7 +293,7 @@ pub fn run_cases(kind: &str, seed: u64, total: u64, workers: u64) -> Outcome {
 /// run a single described case in a child (`__worker <kind>one <json>`); returns the report or
 /// how the child died
 pub fn run_one(kind: &str, case_json: &str) -> Result<CaseReport, String> {
-    let mut child = Command::new(exe()).args(["__worker", &format!("{kind}one"), case_json]).stdout(Stdio::piped()).stderr(Stdio::null()).spawn().map_err(|e| format!("spawn: {e}"))?;
+    let mut child = Command::new(exe()).args(["__worker", &format!("{kind}one"), case_json]).stdout(Stdio::piped()).stderr(Stdio::null()).spawn().map_err(|e| format!("{STALL}: cannot start a worker process: {e}"))?;
     // bounded wait: a child that neither finishes nor dies within 60 s is killed
     let t0 = Instant::now();
     loop {
